@@ -539,56 +539,179 @@ func shapeUDP(l4 *pkgInfo) []fact {
 		}
 		return -1, true
 	}
+	// every function / method of the package by name (methods of any receiver)
+	byName := map[string][]*ast.FuncDecl{}
+	for _, f := range l4.files {
+		for _, d := range f.Decls {
+			if fd, ok := d.(*ast.FuncDecl); ok && fd.Body != nil {
+				byName[fd.Name.Name] = append(byName[fd.Name.Name], fd)
+			}
+		}
+	}
+	// callee of a call expression when it is a function or method of this package (unique by name)
+	callee := func(ce *ast.CallExpr) *ast.FuncDecl {
+		name := ""
+		switch fn := ce.Fun.(type) {
+		case *ast.Ident:
+			name = fn.Name
+		case *ast.SelectorExpr:
+			name = fn.Sel.Name
+		}
+		if c := byName[name]; len(c) == 1 {
+			return c[0]
+		}
+		return nil
+	}
+	// reach: the body of fd and, as if they were inlined, the bodies of the package's own functions
+	// it calls (two levels; Server.handle and what lies behind it is the handler, not the loop)
+	reach := func(fd *ast.FuncDecl) []ast.Node {
+		seen := map[*ast.FuncDecl]bool{fd: true}
+		nodes := []ast.Node{fd.Body}
+		frontier := []*ast.FuncDecl{fd}
+		for depth := 0; depth < 2; depth++ {
+			var next []*ast.FuncDecl
+			for _, f := range frontier {
+				ast.Inspect(f.Body, func(n ast.Node) bool {
+					if ce, ok := n.(*ast.CallExpr); ok {
+						if c := callee(ce); c != nil && !seen[c] && c.Name.Name != "handle" && c.Name.Name != "Handle" {
+							seen[c] = true
+							nodes = append(nodes, c.Body)
+							next = append(next, c)
+						}
+						// a method value handed to sync.Once.Do and the like
+						for _, a := range ce.Args {
+							if se, ok := a.(*ast.SelectorExpr); ok {
+								if c := byName[se.Sel.Name]; len(c) == 1 && !seen[c[0]] {
+									seen[c[0]] = true
+									nodes = append(nodes, c[0].Body)
+									next = append(next, c[0])
+								}
+							}
+						}
+					}
+					return true
+				})
+			}
+			frontier = next
+		}
+		return nodes
+	}
+	srcAll := func(nodes []ast.Node) string {
+		var b strings.Builder
+		for _, n := range nodes {
+			b.WriteString(l4.src(n))
+			b.WriteString("\n")
+		}
+		return b.String()
+	}
+	pcFields := structFields(l4, "packetConn")
+
 	if fd := l4.findFunc("Server", "servePacket"); fd != nil {
+		nodes := reach(fd)
 		caps := map[string]int{"packets": -1, "closeCh": -1, "readCh": -1}
 		closeElem := ""
-		ast.Inspect(fd.Body, func(n ast.Node) bool {
-			switch x := n.(type) {
-			case *ast.AssignStmt:
-				if len(x.Lhs) == 1 && len(x.Rhs) == 1 {
-					if id, ok := x.Lhs[0].(*ast.Ident); ok {
-						if c, ok := chanCap(x.Rhs[0]); ok {
-							if _, want := caps[id.Name]; want {
-								caps[id.Name] = c
-							}
-							if id.Name == "closeCh" {
-								closeElem = l4.src(x.Rhs[0].(*ast.CallExpr).Args[0].(*ast.ChanType).Value)
-							}
-						}
-					}
-				}
-			case *ast.KeyValueExpr:
-				if id, ok := x.Key.(*ast.Ident); ok {
-					if c, ok := chanCap(x.Value); ok {
-						if _, want := caps[id.Name]; want {
-							caps[id.Name] = c
-						}
-					}
+		// a channel is recognised by the name it is bound to, else by its element type
+		bind := func(name string, e ast.Expr) {
+			c, ok := chanCap(e)
+			if !ok {
+				return
+			}
+			elem := strings.ReplaceAll(l4.src(e.(*ast.CallExpr).Args[0].(*ast.ChanType).Value), " ", "")
+			if _, want := caps[name]; !want {
+				switch elem {
+				case "packet":
+					name = "packets"
+				case "*packet":
+					name = "readCh"
+				case "string", "*packetConn":
+					name = "closeCh"
+				default:
+					return
 				}
 			}
-			return true
-		})
+			if caps[name] < 0 {
+				caps[name] = c
+			}
+			if name == "closeCh" {
+				closeElem = elem
+			}
+		}
+		for _, nd := range nodes {
+			ast.Inspect(nd, func(n ast.Node) bool {
+				switch x := n.(type) {
+				case *ast.AssignStmt:
+					if len(x.Lhs) == len(x.Rhs) {
+						for i := range x.Lhs {
+							switch l := x.Lhs[i].(type) {
+							case *ast.Ident:
+								bind(l.Name, x.Rhs[i])
+							case *ast.SelectorExpr:
+								bind(l.Sel.Name, x.Rhs[i])
+							}
+						}
+					}
+				case *ast.ValueSpec:
+					if len(x.Names) == len(x.Values) {
+						for i := range x.Names {
+							bind(x.Names[i].Name, x.Values[i])
+						}
+					}
+				case *ast.KeyValueExpr:
+					if id, ok := x.Key.(*ast.Ident); ok {
+						bind(id.Name, x.Value)
+					}
+				}
+				return true
+			})
+		}
+		if closeElem == "" {
+			// second form: the declared type of the field the notifications are sent on
+			if t := strings.ReplaceAll(pcFields["closeCh"], " ", ""); strings.HasPrefix(t, "chan") {
+				closeElem = strings.TrimPrefix(strings.TrimPrefix(t, "chan<-"), "chan")
+			}
+		}
 		add("layer4_udp_cap_packets", "Z", fmt.Sprintf("(%d)", caps["packets"]), "capacity of the packets channel in servePacket (-1: not found)")
 		add("layer4_udp_cap_closeCh", "Z", fmt.Sprintf("(%d)", caps["closeCh"]), "capacity of closeCh in servePacket (-1: not found)")
 		add("layer4_udp_cap_readCh", "Z", fmt.Sprintf("(%d)", caps["readCh"]), "capacity of packetConn.readCh as created in servePacket (-1: not found)")
 		add("layer4_udp_close_notify_identity", "bool", b2s(closeElem != "" && closeElem != "string"),
 			"closeCh carries the association itself (not its address string), so the loop can tell a stale notification")
 
-		// how does the loop send to conn.readCh, and does it look at conn.closed before using a table entry?
+		// how does the loop send to conn.readCh, does it look at conn.closed before using a table entry,
+		// and is the delete guarded by the identity of the notifying association?
 		guarded, plain, skips, deleteChecked, deletes := false, false, false, false, 0
-		var walk func(n ast.Node, inSelectWithClosed bool, inIf bool)
 		isReadChSend := func(st ast.Stmt) bool {
 			ss, ok := st.(*ast.SendStmt)
 			return ok && strings.HasSuffix(l4.src(ss.Chan), ".readCh")
 		}
-		walk = func(n ast.Node, inSel bool, inIf bool) {
+		mentionsClosed := func(s string) bool { return strings.Contains(s, "isClosed()") || strings.Contains(s, ".closed") }
+		leaves := func(b *ast.BlockStmt) bool {
+			if b == nil || len(b.List) == 0 {
+				return false
+			}
+			switch x := b.List[len(b.List)-1].(type) {
+			case *ast.BranchStmt:
+				return x.Tok == token.CONTINUE || x.Tok == token.BREAK || x.Tok == token.GOTO
+			case *ast.ReturnStmt:
+				return true
+			}
+			return false
+		}
+		hasDelete := func(n ast.Node) bool { return n != nil && strings.Contains(l4.src(n), "delete(udpConns") }
+		identityCmp := func(hdr, op string) bool {
+			h := strings.ReplaceAll(hdr, " ", "")
+			return strings.Contains(h, "udpConns[") && strings.Contains(h, op)
+		}
+		var walk func(n ast.Node)
+		walk = func(n ast.Node) {
 			ast.Inspect(n, func(m ast.Node) bool {
 				switch x := m.(type) {
 				case *ast.SelectStmt:
-					hasClosed := false
+					hasClosed, hasDefault := false, false
 					for _, c := range x.Body.List {
 						cc := c.(*ast.CommClause)
-						if cc.Comm != nil && !isReadChSend(cc.Comm) && strings.Contains(l4.src(cc.Comm), ".closed") {
+						if cc.Comm == nil {
+							hasDefault = true
+						} else if !isReadChSend(cc.Comm) && strings.Contains(l4.src(cc.Comm), ".closed") {
 							hasClosed = true
 						}
 					}
@@ -602,8 +725,11 @@ func shapeUDP(l4 *pkgInfo) []fact {
 							}
 						}
 						for _, b := range cc.Body {
-							walk(b, false, inIf)
+							walk(b)
 						}
+					}
+					if hasClosed && hasDefault {
+						skips = true // a non-blocking look at conn.closed
 					}
 					return false
 				case *ast.SendStmt:
@@ -611,12 +737,38 @@ func shapeUDP(l4 *pkgInfo) []fact {
 						plain = true
 					}
 				case *ast.IfStmt:
-					cond := l4.src(x.Cond)
-					if strings.Contains(cond, "isClosed()") || strings.Contains(cond, ".closed") {
+					hdr := l4.src(x.Cond)
+					if x.Init != nil {
+						hdr = l4.src(x.Init) + ";" + hdr
+					}
+					if mentionsClosed(hdr) {
 						skips = true
 					}
-					if strings.Contains(cond, "udpConns[") && strings.Contains(cond, "==") && contains(x.Body, l4, "delete(udpConns") {
+					if identityCmp(hdr, "==") && hasDelete(x.Body) {
 						deleteChecked = true
+					}
+				case *ast.CaseClause:
+					for _, e := range x.List {
+						if mentionsClosed(l4.src(e)) {
+							skips = true
+						}
+					}
+				case *ast.BlockStmt:
+					// `if udpConns[k] != conn { continue }` (or break / return) in front of the delete
+					for i, st := range x.List {
+						if is, ok := st.(*ast.IfStmt); ok && is.Else == nil && leaves(is.Body) {
+							hdr := l4.src(is.Cond)
+							if is.Init != nil {
+								hdr = l4.src(is.Init) + ";" + hdr
+							}
+							if identityCmp(hdr, "!=") {
+								for _, later := range x.List[i+1:] {
+									if hasDelete(later) {
+										deleteChecked = true
+									}
+								}
+							}
+						}
 					}
 				case *ast.CallExpr:
 					if id, ok := x.Fun.(*ast.Ident); ok && id.Name == "delete" && len(x.Args) > 0 && l4.src(x.Args[0]) == "udpConns" {
@@ -626,79 +778,183 @@ func shapeUDP(l4 *pkgInfo) []fact {
 				return true
 			})
 		}
-		walk(fd.Body, false, false)
+		for _, nd := range nodes {
+			walk(nd)
+		}
+		// a CommClause of the outer select is a block of statements as well
+		for _, nd := range nodes {
+			ast.Inspect(nd, func(m ast.Node) bool {
+				if cc, ok := m.(*ast.CommClause); ok {
+					blk := &ast.BlockStmt{List: cc.Body}
+					for i, st := range blk.List {
+						if is, ok := st.(*ast.IfStmt); ok && is.Else == nil && leaves(is.Body) && identityCmp(l4.src(is.Cond), "!=") {
+							for _, later := range blk.List[i+1:] {
+								if hasDelete(later) {
+									deleteChecked = true
+								}
+							}
+						}
+					}
+				}
+				return true
+			})
+		}
 		add("layer4_udp_loop_send_guarded", "bool", b2s(guarded && !plain), "every send to conn.readCh in servePacket is a select case next to a receive from conn.closed")
 		add("layer4_udp_loop_skips_closed", "bool", b2s(skips), "servePacket tests whether the association found in udpConns has already ended before using it")
 		add("layer4_udp_loop_delete_checked", "bool", b2s(deleteChecked && deletes == 1), "the only delete(udpConns, ...) is guarded by a comparison of the table entry with the notifying association")
 	}
 	if fd := l4.findFunc("packetConn", "Close"); fd != nil {
-		var codes []string
-		for _, st := range fd.Body.List {
+		// classify Close by what each statement does to the modelled state (readCh, closed, closeCh,
+		// lastPacket); statements that touch none of it are not part of the model; a call of one of the
+		// package's own methods is classified through its body; deferred statements run last
+		touches := func(s string) bool {
+			for _, w := range []string{"readCh", "closeCh", "closed", "closeOnce", "lastPacket", "lastBuf"} {
+				if strings.Contains(s, w) {
+					return true
+				}
+			}
+			return false
+		}
+		var classify func(list []ast.Stmt, depth int) (codes []int, deferred []int)
+		classifyOne := func(st ast.Stmt) int {
+			if ls, ok := st.(*ast.LabeledStmt); ok {
+				st = ls.Stmt
+			}
 			s := l4.src(st)
-			code := 9
+			flat := strings.Join(strings.Fields(s), " ")
 			switch x := st.(type) {
 			case *ast.IfStmt:
-				if strings.Contains(l4.src(x.Cond), "pc.lastPacket != nil") && strings.Contains(s, "udpBufPool.Put(pc.lastPacket.pooledBuf)") && strings.Contains(s, "pc.lastPacket = nil") && x.Else == nil {
-					code = 0
+				hdr := l4.src(x.Cond)
+				if x.Init != nil {
+					hdr = l4.src(x.Init) + ";" + hdr
+				}
+				if strings.Contains(hdr, "lastPacket") && strings.Contains(hdr, "nil") && strings.Contains(s, "udpBufPool.Put(") &&
+					strings.Contains(flat, "pc.lastPacket = nil") && x.Else == nil && !strings.Contains(s, "<-") && !strings.Contains(s, "close(") {
+					return 0
 				}
 			case *ast.ExprStmt:
-				t := strings.Join(strings.Fields(s), " ")
 				switch {
-				case t == "close(pc.readCh)":
-					code = 1
-				case t == "close(pc.closed)" || t == "pc.closeOnce.Do(func() { close(pc.closed) })":
-					code = 5
+				case flat == "close(pc.readCh)":
+					return 1
+				case strings.Contains(flat, "close(pc.closed)") && !strings.Contains(flat, "readCh") && !strings.Contains(flat, "closeCh"):
+					return 5
 				}
 			case *ast.RangeStmt:
 				if l4.src(x.X) == "pc.readCh" && strings.Contains(s, "udpBufPool.Put(") && !strings.Contains(s, "<-") && !strings.Contains(s, "close(") {
-					code = 2
+					return 2
 				}
 			case *ast.SendStmt:
 				if l4.src(x.Chan) == "pc.closeCh" {
-					code = 3
+					return 3
 				}
 			case *ast.ReturnStmt:
-				code = 4
+				return 4
 			case *ast.ForStmt:
-				// for { select { case pkt := <-pc.readCh: Put; default: <leave> } }
+				// for { select { case pkt := <-pc.readCh: Put; default: <leave the loop> } }, flag-driven or with a labeled break / return
 				if strings.Contains(s, "<-pc.readCh") && strings.Contains(s, "default:") && strings.Contains(s, "udpBufPool.Put(") && !strings.Contains(s, "close(") && !strings.Contains(s, "pc.closeCh") {
-					code = 6
+					return 6
 				}
 			}
-			codes = append(codes, fmt.Sprint(code))
+			return 9
+		}
+		classify = func(list []ast.Stmt, depth int) (codes []int, deferred []int) {
+			for _, st := range list {
+				if ls, ok := st.(*ast.LabeledStmt); ok {
+					st = ls.Stmt
+				}
+				if ds, ok := st.(*ast.DeferStmt); ok {
+					var body []ast.Stmt
+					if fl, ok := ds.Call.Fun.(*ast.FuncLit); ok {
+						body = fl.Body.List
+					} else {
+						body = []ast.Stmt{&ast.ExprStmt{X: ds.Call}}
+					}
+					c, _ := classify(body, depth)
+					deferred = append(append([]int{}, c...), deferred...) // LIFO
+					continue
+				}
+				code := classifyOne(st)
+				if code == 9 {
+					// one of the package's own methods / functions: what its body does
+					if es, ok := st.(*ast.ExprStmt); ok && depth < 2 {
+						if ce, ok := es.X.(*ast.CallExpr); ok {
+							cands := []*ast.FuncDecl{callee(ce)}
+							for _, a := range ce.Args { // pc.closeOnce.Do(pc.signal)
+								if se, ok := a.(*ast.SelectorExpr); ok {
+									if c := byName[se.Sel.Name]; len(c) == 1 {
+										cands = append(cands, c[0])
+									}
+								}
+							}
+							done := false
+							for _, c := range cands {
+								if c != nil && c.Name.Name != "Close" {
+									cc, dd := classify(c.Body.List, depth+1)
+									for len(cc) > 0 && cc[len(cc)-1] == 4 {
+										cc = cc[:len(cc)-1]
+									}
+									codes = append(append(codes, cc...), dd...)
+									done = true
+									break
+								}
+							}
+							if done {
+								continue
+							}
+						}
+					}
+					if !touches(l4.src(st)) {
+						continue // does not touch the modelled state
+					}
+				}
+				codes = append(codes, code)
+			}
+			return
+		}
+		cs, ds := classify(fd.Body.List, 0)
+		// deferred statements run when the function returns: before the final `return` of the list
+		if len(ds) > 0 {
+			if n := len(cs); n > 0 && cs[n-1] == 4 {
+				cs = append(append(cs[:n-1:n-1], ds...), 4)
+			} else {
+				cs = append(cs, ds...)
+			}
 		}
 		val := "nil"
-		for i := len(codes) - 1; i >= 0; i-- {
-			val = "(cons " + codes[i] + " " + val + ")"
+		for i := len(cs) - 1; i >= 0; i-- {
+			val = "(cons " + fmt.Sprint(cs[i]) + " " + val + ")"
 		}
 		add("layer4_pc_close_ops", "list Z", val, "packetConn.Close statement by statement: 0 release lastPacket, 1 close(readCh), 2 drain by range, 3 notify loop, 4 return, 5 signal closed, 6 non-blocking drain, 9 other")
 	}
 	if fd := l4.findFunc("packetConn", "Read"); fd != nil {
-		s := l4.src(fd.Body)
+		nodes := reach(fd)
+		s := srcAll(nodes)
 		add("layer4_pc_read_selects_closed", "bool", b2s(strings.Contains(s, "<-pc.closed")), "packetConn.Read has a select case on pc.closed")
 		// the two places that lead to the EOF path: a nil packet (closed readCh) and the idle timer
 		add("layer4_pc_read_eof_notifies", "bool", b2s(strings.Contains(s, "pc.closeCh <-")), "packetConn.Read notifies the loop before returning io.EOF")
 		// is every notification in Read a plain (blocking) send, or a case of a select that has a default branch (can be lost)?
 		blocking := true
-		ast.Inspect(fd.Body, func(n ast.Node) bool {
-			sel, ok := n.(*ast.SelectStmt)
-			if !ok {
-				return true
-			}
-			hasSend, hasDefault := false, false
-			for _, c := range sel.Body.List {
-				cc := c.(*ast.CommClause)
-				if cc.Comm == nil {
-					hasDefault = true
-				} else if ss, ok := cc.Comm.(*ast.SendStmt); ok && l4.src(ss.Chan) == "pc.closeCh" {
-					hasSend = true
+		for _, nd := range nodes {
+			ast.Inspect(nd, func(n ast.Node) bool {
+				sel, ok := n.(*ast.SelectStmt)
+				if !ok {
+					return true
 				}
-			}
-			if hasSend && hasDefault {
-				blocking = false
-			}
-			return true
-		})
+				hasSend, hasDefault := false, false
+				for _, c := range sel.Body.List {
+					cc := c.(*ast.CommClause)
+					if cc.Comm == nil {
+						hasDefault = true
+					} else if ss, ok := cc.Comm.(*ast.SendStmt); ok && strings.HasSuffix(l4.src(ss.Chan), "closeCh") {
+						hasSend = true
+					}
+				}
+				if hasSend && hasDefault {
+					blocking = false
+				}
+				return true
+			})
+		}
 		add("layer4_pc_read_notify_blocking", "bool", b2s(blocking), "the notification packetConn.Read sends before io.EOF is a blocking send (not a select case next to a default branch, which would drop it when closeCh is full)")
 	}
 	return out
@@ -728,30 +984,52 @@ func shapeRelayHealth(pk map[string]*pkgInfo) []fact {
 	add("l4proxyprotocol_conn_has_CloseWrite", "bool", b2s(ppWrapperHasCloseWrite(pk["l4proxyprotocol"])), "the connection the proxy_protocol handler passes to cx.Wrap is a local struct type embedding *proxyprotocol.Conn that declares CloseWrite")
 	px := pk["l4proxy"]
 	if px != nil {
+		// peer.countConn(+1)/(-1) reached from Handler.Handle, through same-package helpers (inlined, with
+		// constant arguments resolved at the call site)
 		up, down := 0, 0
-		for _, f := range px.files {
-			ast.Inspect(f, func(n ast.Node) bool {
-				ce, ok := n.(*ast.CallExpr)
-				if !ok {
-					return true
-				}
-				if se, ok := ce.Fun.(*ast.SelectorExpr); ok && se.Sel.Name == "countConn" && len(ce.Args) == 1 {
-					switch strings.ReplaceAll(px.src(ce.Args[0]), " ", "") {
+		stop := map[string]bool{"countConn": true, "countFail": true}
+		if fd := px.findFunc("Handler", "Handle"); fd != nil {
+			for _, l := range px.inlinedLeaves(fd, stop, 3) {
+				if l.name == "countConn" && len(l.args) == 1 {
+					switch l.args[0] {
 					case "1", "+1":
 						up++
 					case "-1":
 						down++
 					}
 				}
-				return true
-			})
+			}
 		}
-		add("l4proxy_countConn_up_calls", "Z", fmt.Sprint(up), "call sites peer.countConn(1) in package l4proxy")
-		add("l4proxy_countConn_down_calls", "Z", fmt.Sprint(down), "call sites peer.countConn(-1) in package l4proxy")
+		add("l4proxy_countConn_up_calls", "Z", fmt.Sprint(up), "calls peer.countConn(1) reached from Handler.Handle (same-package helpers inlined)")
+		add("l4proxy_countConn_down_calls", "Z", fmt.Sprint(down), "calls peer.countConn(-1) reached from Handler.Handle (same-package helpers inlined)")
 		if fd := px.findFunc("Handler", "countFailure"); fd != nil {
-			s := px.src(fd.Body)
-			add("l4proxy_forgetter_sleeps_fail_duration", "bool", b2s(strings.Contains(s, "time.Sleep(failDuration)") && strings.Contains(s, "failDuration := time.Duration(h.HealthChecks.Passive.FailDuration)")), "the forgetter goroutine of countFailure sleeps exactly Passive.FailDuration")
-			add("l4proxy_countFailure_up_down", "bool", b2s(strings.Count(s, "countFail(1)") == 1 && strings.Count(s, "countFail(-1)") == 1), "countFailure calls countFail(1) once and its forgetter countFail(-1) once")
+			ls := px.inlinedLeaves(fd, stop, 3)
+			incNow, decLater, decOther, otherFail := 0, 0, 0, 0
+			sleepsExactly := false
+			for i, l := range ls {
+				if l.name != "countFail" || len(l.args) != 1 {
+					continue
+				}
+				switch {
+				case (l.args[0] == "1" || l.args[0] == "+1") && l.goID == 0:
+					incNow++
+				case l.args[0] == "-1" && l.goID != 0:
+					decLater++
+					// the last sleep before it in the same goroutine
+					for k := i - 1; k >= 0; k-- {
+						if ls[k].goID == l.goID && ls[k].full == "time.Sleep" && len(ls[k].args) == 1 {
+							sleepsExactly = ls[k].args[0] == "time.Duration(h.HealthChecks.Passive.FailDuration)"
+							break
+						}
+					}
+				case l.args[0] == "-1":
+					decOther++
+				default:
+					otherFail++
+				}
+			}
+			add("l4proxy_forgetter_sleeps_fail_duration", "bool", b2s(sleepsExactly && decLater == 1), "the forgetter goroutine started by countFailure sleeps exactly Passive.FailDuration before countFail(-1) (helpers inlined)")
+			add("l4proxy_countFailure_up_down", "bool", b2s(incNow == 1 && decLater == 1 && decOther == 0 && otherFail == 0), "countFailure calls countFail(1) once itself and countFail(-1) once in the goroutine it starts (helpers inlined)")
 		}
 		if fd := px.findFunc("LoadBalancing", "tryAgain"); fd != nil {
 			s := px.src(fd.Body)
@@ -844,4 +1122,222 @@ func ppWrapperHasCloseWrite(p *pkgInfo) bool {
 		return true
 	})
 	return wrapped != "" && wrappers[wrapped] && p.findFunc(wrapped, "CloseWrite") != nil
+}
+
+// ---------- inlining of same-package helpers for the call-site facts (appended by b-c03) ----------
+
+// leaf is a call that is not inlined: name = selector or identifier called, full = printed callee,
+// args = printed arguments with parameters and simple local definitions resolved, goID != 0 when the
+// call happens in a goroutine started (directly or through helpers) by the analysed function
+type leaf struct {
+	name, full string
+	args       []string
+	goID       int
+	deferred   bool
+}
+
+func isIdentByte(c byte) bool {
+	return c == '_' || (c >= '0' && c <= '9') || (c >= 'a' && c <= 'z') || (c >= 'A' && c <= 'Z')
+}
+
+// substIdents replaces free identifiers (not field selectors) that are keys of env
+func substIdents(src string, env map[string]string) string {
+	var b strings.Builder
+	for i := 0; i < len(src); {
+		c := src[i]
+		if isIdentByte(c) && !(c >= '0' && c <= '9') {
+			j := i
+			for j < len(src) && isIdentByte(src[j]) {
+				j++
+			}
+			id := src[i:j]
+			if v, ok := env[id]; ok && (i == 0 || src[i-1] != '.') {
+				if strings.ContainsAny(strings.TrimPrefix(v, "-"), " +-*/%&|<>") {
+					b.WriteString("(" + v + ")")
+				} else {
+					b.WriteString(v)
+				}
+			} else {
+				b.WriteString(id)
+			}
+			i = j
+			continue
+		}
+		if c >= '0' && c <= '9' { // a number (do not look inside for identifiers)
+			j := i
+			for j < len(src) && (isIdentByte(src[j]) || src[j] == '.') {
+				j++
+			}
+			b.WriteString(src[i:j])
+			i = j
+			continue
+		}
+		b.WriteByte(c)
+		i++
+	}
+	return b.String()
+}
+
+func normExpr(s string) string {
+	s = strings.Join(strings.Fields(s), "")
+	for len(s) >= 2 && s[0] == '(' && s[len(s)-1] == ')' {
+		depth, ok := 0, true
+		for i := 0; i < len(s)-1; i++ {
+			if s[i] == '(' {
+				depth++
+			} else if s[i] == ')' {
+				depth--
+			}
+			if depth == 0 {
+				ok = false
+				break
+			}
+		}
+		if !ok {
+			break
+		}
+		s = s[1 : len(s)-1]
+	}
+	return s
+}
+
+func (p *pkgInfo) declsNamed(name string) []*ast.FuncDecl {
+	var out []*ast.FuncDecl
+	for _, f := range p.files {
+		for _, d := range f.Decls {
+			if fd, ok := d.(*ast.FuncDecl); ok && fd.Name.Name == name && fd.Body != nil {
+				out = append(out, fd)
+			}
+		}
+	}
+	return out
+}
+
+func paramNames(ft *ast.FuncType) []string {
+	var ns []string
+	if ft.Params == nil {
+		return ns
+	}
+	for _, f := range ft.Params.List {
+		if len(f.Names) == 0 {
+			ns = append(ns, "_")
+		}
+		for _, n := range f.Names {
+			ns = append(ns, n.Name)
+		}
+	}
+	return ns
+}
+
+// inlinedLeaves lists, in source order, the calls made by fd with calls to same-package functions and
+// methods (resolved by name when the name is unique in the package and not in stop) and function
+// literals replaced by their bodies, up to the given depth
+func (p *pkgInfo) inlinedLeaves(fd *ast.FuncDecl, stop map[string]bool, depth int) []leaf {
+	var out []leaf
+	goSeq := 0
+	var walk func(n ast.Node, env map[string]string, depth, goID int, deferred bool)
+	var call func(ce *ast.CallExpr, env map[string]string, depth, goID int, deferred bool)
+	bind := func(ft *ast.FuncType, args []ast.Expr, env, base map[string]string) map[string]string {
+		ne := map[string]string{}
+		for k, v := range base {
+			ne[k] = v
+		}
+		ns := paramNames(ft)
+		for i, n := range ns {
+			if i < len(args) && n != "_" {
+				ne[n] = normExpr(substIdents(p.src(args[i]), env))
+			} else {
+				delete(ne, n)
+			}
+		}
+		return ne
+	}
+	call = func(ce *ast.CallExpr, env map[string]string, depth, goID int, deferred bool) {
+		for _, a := range ce.Args {
+			walk(a, env, depth, goID, deferred)
+		}
+		switch fn := ce.Fun.(type) {
+		case *ast.FuncLit:
+			walk(fn.Body, bind(fn.Type, ce.Args, env, env), depth, goID, deferred)
+			return
+		case *ast.Ident, *ast.SelectorExpr:
+			name := ""
+			if id, ok := fn.(*ast.Ident); ok {
+				name = id.Name
+			} else {
+				se := fn.(*ast.SelectorExpr)
+				name = se.Sel.Name
+				walk(se.X, env, depth, goID, deferred)
+				if x, ok := se.X.(*ast.Ident); ok && (x.Name == "time" || x.Name == "atomic" || x.Name == "net" || x.Name == "fmt" || x.Name == "log" || x.Name == "zap") {
+					// a call into another package that happens to share a name with a local function
+					args := make([]string, len(ce.Args))
+					for i, a := range ce.Args {
+						args[i] = normExpr(substIdents(p.src(a), env))
+					}
+					out = append(out, leaf{name: name, full: p.src(fn), args: args, goID: goID, deferred: deferred})
+					return
+				}
+			}
+			if ds := p.declsNamed(name); len(ds) == 1 && !stop[name] && depth > 0 {
+				// the callee's own locals shadow the caller's: start from the parameters only
+				walk(ds[0].Body, bind(ds[0].Type, ce.Args, env, map[string]string{}), depth-1, goID, deferred)
+				return
+			}
+			args := make([]string, len(ce.Args))
+			for i, a := range ce.Args {
+				args[i] = normExpr(substIdents(p.src(a), env))
+			}
+			out = append(out, leaf{name: name, full: p.src(fn), args: args, goID: goID, deferred: deferred})
+		default:
+			walk(ce.Fun, env, depth, goID, deferred)
+		}
+	}
+	walk = func(n ast.Node, env map[string]string, depth, goID int, deferred bool) {
+		if n == nil {
+			return
+		}
+		ast.Inspect(n, func(x ast.Node) bool {
+			switch y := x.(type) {
+			case *ast.GoStmt:
+				goSeq++
+				call(y.Call, env, depth, goSeq, deferred)
+				return false
+			case *ast.DeferStmt:
+				call(y.Call, env, depth, goID, true)
+				return false
+			case *ast.CallExpr:
+				call(y, env, depth, goID, deferred)
+				return false
+			case *ast.FuncLit:
+				// a literal that is not called on the spot (stored, passed on): its body may run
+				walk(y.Body, env, depth, goID, deferred)
+				return false
+			case *ast.AssignStmt:
+				for _, r := range y.Rhs {
+					walk(r, env, depth, goID, deferred)
+				}
+				if len(y.Lhs) == len(y.Rhs) {
+					for i, l := range y.Lhs {
+						if id, ok := l.(*ast.Ident); ok && id.Name != "_" {
+							if _, isCall := y.Rhs[i].(*ast.CallExpr); isCall && !strings.HasPrefix(p.src(y.Rhs[i]), "time.Duration(") {
+								delete(env, id.Name) // the result of a call is not a constant of the source
+							} else {
+								env[id.Name] = normExpr(substIdents(p.src(y.Rhs[i]), env))
+							}
+						}
+					}
+				} else {
+					for _, l := range y.Lhs {
+						if id, ok := l.(*ast.Ident); ok {
+							delete(env, id.Name)
+						}
+					}
+				}
+				return false
+			}
+			return true
+		})
+	}
+	walk(fd.Body, map[string]string{}, depth, 0, false)
+	return out
 }
